@@ -361,6 +361,15 @@ def norm_impl_env(res):
     return [0, []]
 
 
+# a leaky pass: exit 0, a background child keeps the captured stdout open past leak-timeout; the
+# run must go on and the tests matched by test(alpha) must see the variable, the others must not
+LEAK_WITNESS = dict(
+    names=["beta"], tool=False, profile="default", host="x86_64-unknown-linux-gnu", target=None,
+    rules=[dict(host=None, target=None, form="table", filter=["atom", 2], setup=["beta"],
+                profile="default", setup_as_string=False)],
+    scripts=[dict(name="beta", kind="leaky", env_bytes=list(b"C18V_FOO=from-leaky\n"),
+                  exit=0, sleep_ms=0, hang=False)],
+    selected=[0, 1, 2, 3], env_maps={}, test_threads=2)
 # F5 (DESIGN section 6): exit 0, one valid line and one reserved key
 F5_WITNESS = dict(
     names=["alpha"], tool=False, profile="default", host="x86_64-unknown-linux-gnu", target=None,
@@ -386,7 +395,7 @@ RUN_QUERIES = [dict(pkg=b["pkg"], kind="lib", binary_name=b["binary_id"], binary
 # pass on variables whose names are not identifiers
 RUN_KEYS = ["C18V_FOO", "C18V_K", "C18V_e2"]
 RUN_ATOMS = [0, 2, 5, 8, 9, 10, 15]   # all(), test(alpha), package(crate_a), deps, rdeps, kind(lib), platform(target)
-RESULT_CODE = dict(pass_=0, fail=2, badenv=3, execfail=3, timeout=4)
+RESULT_CODE = dict(pass_=0, leaky=0, fail=2, badenv=3, execfail=3, timeout=4)
 
 
 def gen_run_case(r):
@@ -394,7 +403,7 @@ def gen_run_case(r):
     names = r.sample(NAMES, n)
     scripts = []
     for nm in names:
-        kind = r.choices(["pass_", "fail", "badenv", "execfail", "timeout"], [70, 10, 12, 5, 3])[0]
+        kind = r.choices(["pass_", "leaky", "fail", "badenv", "execfail", "timeout"], [58, 12, 10, 12, 5, 3])[0]
         lines = [f"{r.choice(RUN_KEYS)}={r.choice([nm, nm, nm + '=b', 'x y ' + nm, 'ü', ''])}"
                  for _ in range(r.randint(0, 3))]
         if kind == "badenv":
@@ -430,6 +439,8 @@ def render_run_toml(sc):
         nm = s_["name"]
         cmd = f'["sh", "@DIR@/script-{nm}.sh"]' if s_["kind"] != "execfail" else '["@DIR@/no-such-program"]'
         extra = '\nslow-timeout = { period = "100ms", terminate-after = 1 }' if s_["kind"] == "timeout" else ""
+        if s_["kind"] == "leaky":
+            extra = '\ncapture-stdout = true\nleak-timeout = "50ms"'
         toml = toml.replace(f'command = "run-{nm}"', f"command = {cmd}{extra}")
     return toml
 
@@ -437,7 +448,8 @@ def render_run_toml(sc):
 def run_impl_case(sc):
     return dict(op="run", toml=render_run_toml(sc), profile="default",
                 scripts=[dict(name=s_["name"], exit=s_["exit"], env_bytes=s_["env_bytes"],
-                              sleep_ms=s_["sleep_ms"] or None, hang=s_["hang"]) for s_ in sc["scripts"]],
+                              sleep_ms=s_["sleep_ms"] or None, hang=s_["hang"],
+                              leak=(s_["kind"] == "leaky")) for s_ in sc["scripts"]],
                 binaries=RUN_BINARIES, test_threads=sc["test_threads"])
 
 
@@ -455,8 +467,10 @@ def oracle_run(sc, res):
     parsed = {}
     for nm in needed:
         s_ = by_name[nm]
-        env = py_parse_env(bytes(s_["env_bytes"])) if s_["kind"] in ("pass_", "badenv") else None
-        ok = s_["kind"] == "pass_" and env is not None
+        env = py_parse_env(bytes(s_["env_bytes"])) if s_["kind"] in ("pass_", "leaky", "badenv") else None
+        # a leaky pass (exit 0, a background child keeps the captured stdout open past the leak
+        # timeout) is a success like any other pass: the run goes on and its variables count
+        ok = s_["kind"] in ("pass_", "leaky") and env is not None
         expect_events += [["script-started", nm], ["script-finished", nm]]
         if ok:
             parsed[nm] = env
@@ -512,8 +526,12 @@ def oracle_run(sc, res):
                 env.update(parsed[nm])
         got = {k: v for k, v in res["test_envs"].get(f"{q['binary_id']} {q['test']}", []) if k.startswith("C18V_")}
         if got != env:
+            leaky = [nm for nm in needed if lm(nm, q) and by_name[nm]["kind"] == "leaky"]
+            hint = (f" (script(s) {leaky} exit 0 with a background child holding the captured stdout: "
+                    f"reported as result code {[fin[nm][2] for nm in leaky if nm in fin]}, 1 = leak, a "
+                    f"success whose variables must be applied)") if leaky else ""
             return (f"test process {q['binary_id']} {q['test']} sees {sorted(got.items())}; the scripts "
-                    f"enabled for it wrote {sorted(env.items())}")
+                    f"enabled for it wrote {sorted(env.items())}{hint}")
     return None
 
 
@@ -528,9 +546,10 @@ def coq_run_case(sc, tables):
     outs = []
     for nm in sc["names"]:
         s_ = next(x for x in sc["scripts"] if x["name"] == nm)
-        if s_["kind"] in ("pass_", "badenv"):
+        if s_["kind"] in ("pass_", "leaky", "badenv"):
+            res0 = "RLeak" if s_["kind"] == "leaky" else "RPass"
             try:
-                outs.append(f"(mkout RPass (Some {coq_str(bytes(s_['env_bytes']).decode())}))")
+                outs.append(f"(mkout {res0} (Some {coq_str(bytes(s_['env_bytes']).decode())}))")
             except UnicodeDecodeError:
                 outs.append("(mkout RPass None)")
         else:
@@ -560,10 +579,16 @@ def check_runs(chk, binary, scenarios, tag):
             oracle_fail = (sc, res, why)
         # model: script events exactly; started tests as a set with their script-provided variables
         ix = {nm: i for i, nm in enumerate(sc["names"])}
-        i_scripts = [[0, [ix[e[1]], 0]] if e[0] == "script-started" else [1, [ix[e[1]], e[2]]]
+        # Pass (0) and Leak (1) are both successes: whether the leak detector fires depends on
+        # timing, the property does not distinguish them
+        succ = lambda c: 0 if c == 1 else c
+        i_scripts = [[0, [ix[e[1]], 0]] if e[0] == "script-started" else [1, [ix[e[1]], succ(e[2])]]
                      for e in res["events"] if e[0].startswith("script-")]
+        for e in res["events"]:
+            if e[0] == "script-finished" and e[2] == 1:
+                chk.count("real_run_results_classified_leak")
         m_events = [[e[0], list(e[1])] for e in mo[0]]
-        m_scripts = [e for e in m_events if e[0] != 2]
+        m_scripts = [[e[0], [e[1][0], succ(e[1][1]) if e[0] == 1 else e[1][1]]] for e in m_events if e[0] != 2]
         m_tests = {e[1][0]: {decode_str(k): decode_str(v) for k, v in env}
                    for e, env in zip([e for e in m_events if e[0] == 2], mo[1][0])}
         qix = {(q["binary_id"], q["test"]): i for i, q in enumerate(RUN_QUERIES)}
@@ -720,7 +745,7 @@ def run(tier, seed):
     check_env_files(chk, binary, files, "c18e")
 
     # ---- real runs of the real runner over scripted scripts and scripted test binaries ---------
-    runs = [F5_WITNESS] + list(cp.get("runs", []))
+    runs = [F5_WITNESS, LEAK_WITNESS] + list(cp.get("runs", []))
     while len(runs) < (240 if thorough else 36):
         runs.append(gen_run_case(r))
     check_runs(chk, binary, runs, "c18r")
